@@ -207,6 +207,30 @@ def run(cmd, log_fp, timeout, mem_gb):
         return None, f"oserror:{e}", time.time() - t0
 
 
+def resolve_unwindset(spec, goto, lf, timeout, mem):
+    """`substr=N;substr=N` -> CBMC loop ids. A loop is selected when `substr` occurs in its id
+    (e.g. `memcmp`) or in the pretty name of the function that contains it; ids are read from
+    `cbmc --show-loops` on the very binary being checked, so they follow /repo's source."""
+    out, rc, _ = run(["cbmc", "--show-loops", "--json-ui", goto], lf, timeout, mem)
+    loops = []
+    try:
+        for e in json.loads(out):
+            if isinstance(e, dict) and "loops" in e:
+                loops = e["loops"]
+    except (ValueError, TypeError):
+        return None
+    pairs = []
+    for item in spec.split(";"):
+        if not item.strip():
+            continue
+        sub, n = item.rsplit("=", 1)
+        for lp in loops:
+            fn = lp.get("sourceLocation", {}).get("function", "")
+            if sub in lp["name"] or sub in fn:
+                pairs.append(f'{lp["name"]}:{int(n)}')
+    return ",".join(pairs)
+
+
 def verify_one(h, meta, rundir, scale):
     """Link, instrument and model-check one harness. Returns a result dict."""
     name = h["name"]
@@ -240,7 +264,11 @@ def verify_one(h, meta, rundir, scale):
     if uw is not None:
         cmd += ["--unwind", str(uw)]
     if h.get("unwindset"):
-        cmd += ["--unwindset", h["unwindset"]]
+        us = resolve_unwindset(h["unwindset"], g, lf, timeout, mem)
+        if us:
+            cmd += ["--unwindset", us]
+        res["unwindset"] = h["unwindset"]
+        res["unwindset_resolved"] = us
     cmd += ["--unwinding-assertions"]
     if h.get("cbmc"):
         cmd += h["cbmc"].split()
@@ -328,7 +356,7 @@ def verify_one(h, meta, rundir, scale):
 
 # --------------------------------------------------------------------------- counterexample + replay
 
-def concrete_playback(h, rundir):
+def concrete_playback(h, rundir, res=None):
     """Ask Kani for the concrete values of the failing run. Returns hex string or None."""
     cdir = os.path.join(HARN, h["crate"])
     cmd = ["cargo", "kani", "--lib", "-Z", "concrete-playback", "--concrete-playback=print", "-Z", "stubbing",
@@ -339,8 +367,8 @@ def concrete_playback(h, rundir):
     extra = []
     if h.get("unwind"):
         extra += ["--unwind", h["unwind"]]
-    if h.get("unwindset"):
-        extra += ["--unwindset", h["unwindset"]]
+    if res and res.get("unwindset_resolved"):
+        extra += ["--unwindset", res["unwindset_resolved"]]
     if extra:
         cmd += ["--cbmc-args"] + extra
     try:
@@ -507,7 +535,7 @@ def main():
     for r in failed:
         h = byname[r["harness"]]
         rd = rundirs[h["crate"]]
-        hexs = concrete_playback(h, rd)
+        hexs = concrete_playback(h, rd, r)
         if hexs is None:
             r["status"] = "inconclusive"
             r["reason"] = "solver reported a failed check but no concrete counterexample could be extracted"
